@@ -275,13 +275,84 @@ pub fn eval_min(c: &MinCase) -> Eval {
             }
         }
     }
-    if c.kind.is_f32() && int_valued {
-        return Ok(Report::new(false).excluded("f32-superminhash-integer-valued-register"));
-    }
     for k in 0..c.m {
         ensure!(as_f(got[k]) == want[k], "{:?} m={} n={}: position {} holds {:e} but the minimum over the single-item sketches is {:e}", c.kind, c.m, c.items.len(), k, as_f(got[k]), want[k]);
     }
-    Ok(Report::new(c.items.len() >= 2).class(format!("{:?}", c.kind)).class_if(c.items.len() >= c.m, "n>=m").class_if(c.items.len() >= 8 * c.m, "n>=8m"))
+    Ok(Report::new(c.items.len() >= 2).class(format!("{:?}", c.kind)).class_if(c.items.len() >= c.m, "n>=m").class_if(c.items.len() >= 8 * c.m, "n>=8m").class_if(c.kind.is_f32() && int_valued, "f32-register-rounded-up-to-an-integer"))
+}
+
+/// targeted generator for the f32 round-up region: r + j rounds up to j + 1 with probability ~ j 2^-24 per draw. A window of
+/// labels is scanned (public API: single-item sketches) for items holding such an integer-valued register, and each is
+/// combined with other items of the window in both orders; the result must be the position-wise minimum.
+#[derive(Clone, Debug, Serialize, Deserialize)]
+pub struct RoundCase {
+    pub m: usize,
+    pub base: u64,
+    pub window: u32,
+    pub partners: u16,
+}
+
+pub fn eval_round(c: &RoundCase) -> Eval {
+    let dummy = SsParams { b: F(1.001), a: F(20.0), q: 100 };
+    let kind = Kind::SmhF32;
+    let mut one = make(kind, c.m, &dummy);
+    let single = |one: &mut Box<dyn Sk>, x: u64| -> Vec<f32> {
+        one.reinit();
+        one.sketch(x);
+        one.views().get("float").unwrap().iter().map(|b| f32::from_bits(*b as u32)).collect()
+    };
+    let mut special: Vec<u64> = vec![];
+    for i in 0..c.window as u64 {
+        let x = c.base.wrapping_add(i);
+        if single(&mut one, x).iter().any(|v| v.fract() == 0.0 && *v > 0.0) {
+            special.push(x);
+        }
+    }
+    let mut two = make(kind, c.m, &dummy);
+    let mut checked = 0usize;
+    for x in special.iter().take(6) {
+        let sx = single(&mut one, *x);
+        for k in 0..c.partners as u64 {
+            let y = c.base.wrapping_add(splitmix64(k ^ *x) % c.window as u64);
+            if y == *x {
+                continue;
+            }
+            let sy = single(&mut one, y);
+            let want: Vec<f32> = sx.iter().zip(sy.iter()).map(|(a, b)| a.min(*b)).collect();
+            // both orders, and streams in which the special item is repeated (before, around and after its partner)
+            let streams: [&[u64]; 5] = [&[*x, y], &[y, *x], &[*x, *x, y], &[*x, y, *x, y], &[y, *x, *x, *x]];
+            for order in streams {
+                two.reinit();
+                for v in order {
+                    two.sketch(*v);
+                }
+                let got: Vec<f32> = two.views().get("float").unwrap().iter().map(|b| f32::from_bits(*b as u32)).collect();
+                ensure!(got == want, "SuperMinHash<f32> m={}: item {} has a register rounded up to an integer ({:?}); sketching {:?} gives {:?} but the position-wise minimum of the two single-item sketches is {:?}", c.m, x, sx, order, got, want);
+            }
+            checked += 1;
+        }
+        // a longer stream: x twice, then up to 40 other items of the window (greedy histories behind a repeated round-up)
+        let others: Vec<u64> = (0..40u64).map(|k| c.base.wrapping_add(splitmix64(k ^ !*x) % c.window as u64)).filter(|y| y != x).collect();
+        let mut want = sx.clone();
+        for y in &others {
+            for (w, v) in want.iter_mut().zip(single(&mut one, *y).iter()) {
+                *w = w.min(*v);
+            }
+        }
+        two.reinit();
+        two.sketch(*x);
+        two.sketch(*x);
+        for y in &others {
+            two.sketch(*y);
+        }
+        let got: Vec<f32> = two.views().get("float").unwrap().iter().map(|b| f32::from_bits(*b as u32)).collect();
+        ensure!(got == want, "SuperMinHash<f32> m={}: item {} (register rounded up to an integer) streamed twice and followed by {} other items: sketch differs from the position-wise minimum of the single-item sketches at position {:?}", c.m, x, others.len(), (0..c.m).find(|k| got[*k] != want[*k]));
+    }
+    Ok(Report::new(checked > 0).class_if(checked > 0, "item-with-rounded-up-register-found").class_if(checked == 0, "none-in-window"))
+}
+
+fn round_strategy(window: u32) -> impl Strategy<Value = RoundCase> {
+    (prop::sample::select(vec![8usize, 16, 32, 64, 128]), any::<u64>()).prop_map(move |(m, base)| RoundCase { m, base, window: (window / m as u32).max(2000), partners: 24 })
 }
 
 pub fn run(ctx: &Ctx) {
@@ -289,17 +360,22 @@ pub fn run(ctx: &Ctx) {
         Sketch(i, items) | Merge(i <- j) | Merge(i <- i's twin) | MismatchMerge(i <- fresh sketcher with m+-1 | q+-1 | a(1+-2^-s) | b(1+2^-s), s in 1..39)). A model keeps the item set of each sketcher. After every step the registers are compared \
         with a fresh sketcher fed the model set once AND with the position-wise maximum of single-item sketches; estimate equality, get_low_sketch <= min register; a mismatching merge must return Err and leave registers, low bound, overflow count and estimate unchanged; \
         commutativity / associativity / idempotence are checked on rebuilt sketchers. Non-trivial = a merge between two non-empty sketchers. \
-        (b) SuperMinHash (f64, f32, NoHash): sketch of a generated set (any presentation) == position-wise minimum of the sketches of its single items; non-trivial = >= 2 items.");
+        (b) SuperMinHash (f64, f32, NoHash): sketch of a generated set (any presentation) == position-wise minimum of the sketches of its single items; non-trivial = >= 2 items. (c) targeted generator for SuperMinHash<f32>: labels are scanned for items whose single-item sketch holds a register rounded up to an integer (r + j == j + 1 in f32); each is paired with other items in both orders and compared with the position-wise minimum.");
     ctx.assume("parameter differences below 2^-40 relative are not generated: merge tolerates rounding-level differences on purpose (relative difference < f64::EPSILON)");
     super::run_fixed_tier(ctx, replay);
     let (cases, max_m, max_pool) = ctx.tier.pick((100_000, 128, 400), (1_500_000, 512, 2000));
     ctx.drive("setsketch-history", cases, 16, 1500, || strategy(max_m, max_pool), eval);
     let (cases, max_m, max_n) = ctx.tier.pick((100_000, 256, 600), (1_500_000, 2048, 6000));
     ctx.drive("superminhash-min", cases, 16, 1500, || min_strategy(max_m, max_n), eval_min);
+    let (cases, window) = ctx.tier.pick((48, 4_000_000), (480, 16_000_000));
+    ctx.drive("f32-roundup", cases, 16, 8, || round_strategy(window), eval_round);
 }
 
 pub fn replay(ctx: &Ctx, sub: &str, case: &Value) -> Result<(), String> {
-    if sub == "superminhash-min" {
+    if sub == "f32-roundup" {
+        let c: RoundCase = parse_case(case)?;
+        ctx.run_fixed(sub, &c, eval_round);
+    } else if sub == "superminhash-min" {
         let c: MinCase = parse_case(case)?;
         ctx.run_fixed(sub, &c, eval_min);
     } else {
